@@ -146,6 +146,8 @@ class Builtins:
         T = self.types
         if getattr(v, "ucls", None) is not None:
             return v.ucls
+        if type(v).__name__ == "EnumInt":
+            return v.enum_cls
         if isinstance(v, Obj):
             return v.cls
         if isinstance(v, ClassV):
